@@ -39,6 +39,7 @@ class GlobalContext:
         self.triggers_delay_start: set[EvalFunc] = set()
         self.dms: set[FunctionDecoratorManager] = set()
         self.dms_delay_start: set[FunctionDecoratorManager] = set()
+        self.dms_order: list[FunctionDecoratorManager] = []
         self.logger: logging.Logger = logging.getLogger(LOGGER_PATH + "." + name)
         self.manager = manager
         self.auto_start: bool = False
@@ -87,6 +88,7 @@ class GlobalContext:
                     await dm.start()
                 else:
                     self.dms_delay_start.add(dm)
+                    self.dms_order.append(dm)
         except Exception as exc:
             ast_ctx.log_exception(exc)
 
@@ -105,9 +107,13 @@ class GlobalContext:
             func.trigger_start()
         self.triggers_delay_start = set()
 
-        for dm in self.dms_delay_start:
+        # start in definition order (a set has none)
+        ordered = [dm for dm in self.dms_order if dm in self.dms_delay_start]
+        ordered += [dm for dm in self.dms_delay_start if dm not in ordered]
+        for dm in ordered:
             Function.hass.async_create_task(dm.start())
         self.dms_delay_start = set()
+        self.dms_order = []
 
     def stop(self) -> None:
         """Stop all triggers and auto_start."""
@@ -119,6 +125,7 @@ class GlobalContext:
             Function.hass.async_create_task(dm.stop())
         self.dms = set()
         self.dms_delay_start = set()
+        self.dms_order = []
         self.set_auto_start(False)
 
     def get_name(self) -> str:
